@@ -246,8 +246,8 @@ class Search:
         if not rne and self.rng.random() > self.p_nonrne:
             return
         sym = sym and self.rng.random() < (self.p_sym if rne else self.p_sym / 3)
-        if sym and "sqrt:DOUBLE" in site and self.rng.random() > 0.2:
-            sym = False
+        if sym and ("sqrt:DOUBLE" in site or "div:DOUBLE" in site) and self.rng.random() > 0.1:
+            sym = False      # bit-blasted double-precision sqrt/div take seconds each
         self.stats["checks"] += 1
         try:
             got = self.value_of(build(c.FPV(a, sort_a)))
@@ -273,7 +273,7 @@ class Search:
 
     def run(self, tier, rng):
         self.rng = rng
-        self.p_sym, self.p_nonrne = (0.25, 0.30) if tier == "thorough" else (0.06, 0.08)
+        self.p_sym, self.p_nonrne = (0.15, 0.20) if tier == "thorough" else (0.06, 0.08)
         c, ref, z3 = self.c, self.ref, self.ref.z3
         RM, D, F = ref.RM, ref.D, ref.F
         thorough = tier == "thorough"
